@@ -979,6 +979,8 @@ package storage
 // The catalog as an abstract map: catRoot(name) is the root page offset sys_pages records for table name. What a lookup returns
 // defines it; that updatePageTable makes later lookups return the new offset is assumed (it needs the whole-catalog scan argument).
 //@ spec abstract tblKey(name string) int
+// tblThere(k): the table with key k was in the catalog when the function under verification was entered
+//@ spec abstract tblThere(k int) bool
 //@ ghost var catRoot(k int) int
 //@ func (rs *RelationService) getRelationFileOffset$1(cell *leafCell) (ScanAction, error)
 //@   props C01 C13
@@ -994,6 +996,7 @@ package storage
 //@   ensures[rs] rsOK(rs)
 //@   ensures[notfound; C14] err != nil ==> result0 == 0
 //@   ensures_assumed[catalog.read] err == nil ==> result0 == catRoot(tblKey(relName)) && result0 >= 0
+//@   ensures_assumed[catalog.exists] tblThere(tblKey(relName)) ==> err != ErrTableNotExist
 
 //@ func (rs *RelationService) getRelationSchema$1(cell *leafCell) (ScanAction, error)
 //@   props C01
@@ -1182,6 +1185,9 @@ package storage
 //@   modifies txn, @treeState, @cacheState, storeState, rs.fs._nextLSN, rs.fs.lastKey, rs.fs.nextFreeOffset, rs.fs.pageTableRoot, written, catRoot
 //@   ensures[unlock; C13] txn == 0
 //@   ensures[rs] rsOK(rs)
+//@   ensures[dup; C14] tblThere(tblKey(tableName)) ==> result == ErrTableAlreadyExist && rs.fs.nextFreeOffset == old(rs.fs.nextFreeOffset) &&
+//@              rs.fs.lastKey == old(rs.fs.lastKey) && rs.fs._nextLSN == old(rs.fs._nextLSN) && rs.fs.pageTableRoot == old(rs.fs.pageTableRoot) &&
+//@              (forall n *btreeNode :: !fresh(n) ==> n.dirty == old(n.dirty) && n.lastLSN == old(n.lastLSN))
 
 //@ func (rs *RelationService) CreateTable(r *Relation, tableName string) error
 //@   props C13 C14
